@@ -429,6 +429,8 @@ class Engine:
         for n, srt in spec.get('locals', {}).items():
             if n not in st.env:       # declared local not yet bound: arbitrary value (invariant must guard its use)
                 st.env[n] = fresh_value(parse_sort(srt), n)
+            elif isinstance(st.env[n], VList) and st.env[n].sort is None:
+                st.env[n] = coerce(st.env[n], parse_sort(srt))      # empty literal: adopt the declared element sort
         for j, e in enumerate(spec.get('invariant', [])):
             g = self.spec_bool(e, st)
             self.oblige(st, g, f'loop{k}-inv[{j}]-{what}@L{node.lineno}', 'invariant', node, note=e)
@@ -448,6 +450,10 @@ class Engine:
                     st.env[n] = VUnknown(f'{n} havocked by loop (declare its sort in locals)')
             else:
                 st.env[n] = VUnknown(f'{n} havocked by loop (declare its sort in locals)')
+        from .npmodel import wellformed_facts
+        for n in names:
+            if n in st.env:
+                st.pc.extend(wellformed_facts(st.env[n]))      # type invariants of havocked values (list lengths >= 0, ...)
 
     def do_while(self, st, stmt):
         k, spec = self.loop_spec(stmt)
@@ -1074,6 +1080,12 @@ class Engine:
         v = self.menv.getitem_model(base, idx, self, st, node)
         if v is not None:
             return v
+        lk = ast.unparse(node.value) + '.__getitem__'
+        if lk in self.c.get('calls', {}):
+            fake = ast.Call(func=ast.Attribute(value=node.value, attr='__getitem__', ctx=ast.Load()), args=[node.slice], keywords=[])
+            ast.copy_location(fake, node)
+            ast.fix_missing_locations(fake)
+            return self.menv.apply_contract(lk, fake, self, st, contract=self.c['calls'][lk], args=[idx])
         if isinstance(base, VUnknown):
             return VUnknown(f'{base.why}[...]')
         raise Unsupported(f'subscript of {base!r} with {idx!r}')
